@@ -324,6 +324,59 @@ def _anc(p, n):
         q = p.parent.get(q)
 
 
+def rule_vanish(ctx):
+    p = ctx.p
+    ctx.rule("C07.VANISH", "an entry that cannot be stat'ed does not cost the whole listing: in the server's listing loops every `path_io.stat(<entry>)` - in the loop or in the "
+                           "line builder it calls - runs only where `path_io.exists(<entry>)` held (a dangling symlink, an entry removed by another session between the scan "
+                           "and the stat: reported without facts or skipped, not a 451 for the directory)")
+    S = p.methods("Server")
+
+    def guarded(node, fn, var):
+        for t, pol in all_guards(p, node, fn):
+            while isinstance(t, ast.UnaryOp) and isinstance(t.op, ast.Not):
+                t, pol = t.operand, not pol
+            t = deep_expand(p, t, fn)
+            while isinstance(t, ast.UnaryOp) and isinstance(t.op, ast.Not):
+                t, pol = t.operand, not pol
+            if isinstance(t, ast.Await):
+                t = t.value
+            if pol and isinstance(t, ast.Call) and is_method_call(t, "exists") and last_attr(t.func.value) == "path_io" and t.args and src(t.args[0]) == var:
+                return True
+        return False
+
+    def stats_on(fn, var):
+        return [c for c in walk_no_nested(fn) if isinstance(c, ast.Call) and is_method_call(c, "stat") and last_attr(c.func.value) == "path_io" and c.args and src(c.args[0]) == var]
+    n = 0
+    for name, m in S.items():
+        for fx in [m] + p.nested_functions(m):
+            for lp in walk_no_nested(fx):
+                if not isinstance(lp, (ast.For, ast.AsyncFor)) or not isinstance(lp.target, ast.Name):
+                    continue
+                if not any(isinstance(c, ast.Call) and is_method_call(c, "list") and last_attr(c.func.value) == "path_io" for c in ast.walk(deep_expand(p, lp.iter, fx))):
+                    continue
+                var = lp.target.id
+                for c in [x for s_ in lp.body for x in ast.walk(s_) if isinstance(x, ast.Call)]:
+                    if c in stats_on(fx, var):
+                        n += 1
+                        ctx.ob("C07.VANISH", c, f"{p.qualname(fx)}: `{src(c)[:40]}` on a listed entry runs under exists()", guarded(c, fx, var),
+                               f"{p.qualname(fx)}: a listed entry is stat'ed without an exists() probe: one dangling link or vanished entry fails the whole listing",
+                               construct=f"vanish:{p.qualname(fx)}:stat unguarded")
+                    elif is_self_call(c, set(S)) and any(src(a) == var for a in c.args):
+                        h = S[c.func.attr]
+                        hp = [a.arg for a in h.args.args]
+                        k = [src(a) for a in c.args].index(var) + 1
+                        if k >= len(hp):
+                            continue
+                        site_ok = guarded(c, fx, var)
+                        for st_ in stats_on(h, hp[k]):
+                            n += 1
+                            ctx.ob("C07.VANISH", st_, f"{h.name}: stat of the entry passed from {p.qualname(fx)} runs under exists() (in the builder or at the call)",
+                                   site_ok or guarded(st_, h, hp[k]),
+                                   f"{h.name} stats the listed entry without an exists() probe, and its call in {p.qualname(fx)} is not guarded by one either: a dangling "
+                                   "symlink or an entry deleted meanwhile turns the whole listing into a 451", construct=f"vanish:{h.name}:stat unguarded")
+    ctx.floor("C07.VANISH", 2, "stat calls on listed entries")
+
+
 def rule_half(ctx):
     p = ctx.p
     ctx.rule("C07.HALF", "server 'recent' window is (now - T, now] with the client's T; client year-inference signs are consistent")
@@ -606,4 +659,11 @@ def rule_memstat(ctx):
                + ": MLSD/MLST/LIST on the in-memory backend report a wrong " + {"st_size": "size", "st_mode": "type"}.get(f_, "time"), construct=f"memstat:{f_}")
 
 
-RULES = [rule_fact, rule_keys, rule_fmt, rule_half, rule_all, rule_live, rule_memstat]
+def rule_listing_target(ctx):
+    from .c04 import rule_same
+    ctx.rule("C07.LATE", "a listing is of the directory the command named when it was given: LIST/MLSD resolve their argument in the handler, not in the worker that runs once "
+                         "the data connection exists (a CWD in between would list another directory; shared with C04.SAME)")
+    ctx.borrow(rule_same, {"C04.SAME": "C07.LATE"}, only=lambda fn: any(k in fn for k in ("Server.list", "Server.mlsd", "Server.mlst")))
+
+
+RULES = [rule_listing_target, rule_fact, rule_keys, rule_fmt, rule_half, rule_vanish, rule_all, rule_live, rule_memstat]
